@@ -32,6 +32,7 @@ import (
 	golog "log"
 	"net"
 	"os"
+	"reflect"
 	"strings"
 	"syscall"
 	"testing"
@@ -307,5 +308,57 @@ func TestVerifC11Conn(t *testing.T) {
 			}
 		}
 	}
-	out.Note(fmt.Sprintf("phantom connections against statistics epochs: %d handler runs", runs))
+	// every exported statistics entry point with an (asn, cc, …) signature - the tunnel statistics of the
+	// connecting transports - on an object that has never seen the ASN, which is what each of them finds
+	// right after an epoch; called by name so that a new one is covered (the unexported transitions of the
+	// connection handler are not visible to reflection: they are what the scenarios above drive)
+	calls := 0
+	tv := reflect.TypeOf(newConnManager(nil).connStats)
+	for i := 0; i < tv.NumMethod(); i++ {
+		m := tv.Method(i)
+		if m.Type.NumIn() != 4 || m.Type.In(1).Kind() != reflect.Uint || m.Type.In(2).Kind() != reflect.String {
+			continue
+		}
+		var lasts []reflect.Value
+		switch m.Type.In(3).Kind() {
+		case reflect.Bool:
+			lasts = []reflect.Value{reflect.ValueOf(true), reflect.ValueOf(false)}
+		case reflect.String:
+			lasts = []reflect.Value{reflect.ValueOf("dtls"), reflect.ValueOf("")}
+		default:
+			continue
+		}
+		for _, last := range lasts {
+			for _, g := range geos[:4] {
+				for _, prior := range []string{"fresh", "after-reset", "after-print"} {
+					cm := newConnManager(nil)
+					switch prior {
+					case "after-reset":
+						cm.addCreated(g.asn, g.cc, true)
+						cm.addCreated(g.asn, g.cc, false)
+						cm.Reset()
+					case "after-print":
+						cm.addCreated(g.asn, g.cc, true)
+						cm.addCreated(g.asn, g.cc, false)
+						cm.PrintAndReset(logger)
+					}
+					replay := fmt.Sprintf("stat|%s|%d|%s|%v|%s", m.Name, g.asn, g.cc, last.Interface(), prior)
+					res := vlibc11.Guard(func() {
+						reflect.ValueOf(cm.connStats).MethodByName(m.Name).Call([]reflect.Value{reflect.ValueOf(g.asn), reflect.ValueOf(g.cc), last})
+					})
+					out.Checked()
+					calls++
+					if res.Bad() {
+						out.OracleFail(res.Sig("conn-stats"), fmt.Sprintf("connStats.%s(%d, %q, %v) on an object that is %s: %s", m.Name, g.asn, g.cc, last.Interface(), prior, res.What()), replay)
+					} else if !cm.connStats.m.TryLock() {
+						out.OracleFail("C11:conn-stats:stats-lock-held-after-return", fmt.Sprintf("connStats.%s returned with the statistics lock held", m.Name), replay)
+					} else {
+						cm.connStats.m.Unlock()
+					}
+				}
+			}
+		}
+	}
+	out.Count("conn:stat-entry-points")
+	out.Note(fmt.Sprintf("phantom connections against statistics epochs: %d handler runs; %d calls of statistics entry points on empty objects", runs, calls))
 }
